@@ -300,6 +300,9 @@ class ShareSet:
                 member_data = [(share.member_index, share.bytes) for share in group]
                 share_data.append((i, self.recover_secret(member_data)))
         if self.group_threshold == 1:
+            # every share of a 1-of-n split carries the same secret
+            if any(data != share_data[0][1] for _, data in share_data):
+                raise ValueError("shares of a 1-of-n split do not carry the same secret")
             return self.decrypt(share_data[0][1], passphrase)
         elif self.group_threshold > len(share_data):
             raise ValueError("Not enough shares")
@@ -321,7 +324,8 @@ class ShareSet:
         if num_bytes not in (16, 32):
             raise ValueError("secret should be 128 bits or 256 bits")
         if k == 1:
-            return [(0, secret)]
+            # every one of the n shares carries the secret itself
+            return [(i, secret) for i in range(n)]
         else:
             random = bytes(randbits(8) for _ in range(num_bytes - 4))
             digest = cls.digest(random, secret)
